@@ -40,6 +40,10 @@ def bases(tier):
     # absolute references to top-level tasks declared AFTER nested tasks (root lookup must not be captured by a nested short id)
     out.append(B("S2", [("g.a", "c")], ("end", None), "abs", None, True, "asap"))
     out.append(B("S4", [("g.h.a", "d"), ("g.c", "d")], ("end", "30min"), "abs", None, True, "asap"))
+    for mode in ("asap", "alap"):
+        clash = B("S3", [("h.d", "g.a"), ("h.d", "h.c"), ("g.b", "g.a")], ("end", None), "abs", None, True, mode)
+        clash = rename_nested(clash, "h", "c", "a")      # g.a and h.a now share the short id 'a'
+        out.append(clash)
     two = {"shifts": [{"id": "s1", "hours": [("mon - fri", ["8:00 - 12:00", "13:00 - 17:00"])]}],
            "vacations": [("2025-01-08", None)],
            "resources": [{"id": "r1", "shift": "s1", "eff": 0.7, "leaves": [{"k": "leaves", "type": "sick", "a": "2025-01-09", "b": "2025-01-11"}]},
@@ -176,6 +180,23 @@ def rename_top(spec, old, new):
     return s
 
 
+def rename_nested(spec, container, old, new):
+    """rename <container>.<old> to <container>.<new> in a spec whose references are absolute paths"""
+    s = copy.deepcopy(spec)
+    oldf, newf = f"{container}.{old}", f"{container}.{new}"
+    for fid, t, _p in render.walk_tasks(s["tasks"]):
+        for key in ("deps", "prec"):
+            for i, d in enumerate(t.get(key) or []):
+                r = d if isinstance(d, str) else d["ref"]
+                if r == oldf:
+                    if isinstance(d, str):
+                        t[key][i] = newf
+                    else:
+                        d["ref"] = newf
+    find(s["tasks"], oldf)["id"] = new
+    return s
+
+
 def rel_ref(deps, frm, to):
     base = deps.parent[frm]
     bangs = 1
@@ -250,7 +271,7 @@ def universe(tier):
         yield {"bi": bi, "kind": "orig"}
         for name, _s2, _m in rewrites_spec(spec):
             yield {"bi": bi, "kind": "spec", "name": name}
-        for name, _t in text_rewrites(text, tier, dense=(bi in (1, 15) or tier == "thorough")):
+        for name, _t in text_rewrites(text, tier, dense=(bi in (1, 17) or tier == "thorough")):
             yield {"bi": bi, "kind": "text", "name": name}
 
 
